@@ -63,7 +63,9 @@ SUPPORTED_MEMORY_WIDTHS: frozenset[int] = frozenset({8, 16, 32, 64})
 
 
 _LZMA_FORMAT = lzma.FORMAT_RAW
-_LZMA_DECOMPRESSION_FILTERS: List[Dict[str, int]] = [{"id": lzma.FILTER_LZMA2}]
+# a raw LZMA2 decoder must be given a dictionary at least as big as the encoder's one; preset 9 has the
+# biggest dictionary of all the presets the writer accepts (the default would reject presets 7-9 data).
+_LZMA_DECOMPRESSION_FILTERS: List[Dict[str, int]] = [{"id": lzma.FILTER_LZMA2, "preset": 9}]
 
 
 def _lzma_compression_filters(dw: int, preset: int) -> List[Dict[str, int]]:
